@@ -415,7 +415,7 @@ def hl_offsets(rng, nx, ny, tier, k):
     full = list(range(lo, hi + 1))
     must = {lo, hi, 0, ny - nx, 1, -1, ny - nx + 1, ny - nx - 1, (ny - nx) // 2, 8, -8, 16, -16}
     must = sorted(o for o in must if lo <= o <= hi)
-    if tier == "thorough" and len(full) <= 400:
+    if tier == "thorough" and len(full) <= 400 and k >= 41:
         return full
     rest = [o for o in full if o not in must]
     return sorted(set(must + rng.sample(rest, min(len(rest), max(0, k - len(must))))))
@@ -436,7 +436,7 @@ def hl_cases(ctx, exe_hl, S, H, only=None, tolerated=None):
             sc = dict(sc)
             prep = spec["prep"](rng, sc, call) if spec.get("prep") else None
             size = {b: spec["bufs"][b][1](sc) for b in spec["bufs"]}
-            k = spec.get("quick_offsets") or (13 if tier == "quick" else 41)
+            k = (spec["quick_offsets"] if tier == "quick" else 3 * spec["quick_offsets"]) if spec.get("quick_offsets") else (13 if tier == "quick" else 41)
             pairs = [p for p in hl_pairs(spec) if tolerated is None or p in tolerated.get(fn, ())]
             pairs = [p for p in pairs if tuple(p) not in [tuple(f) for f in spec["forbid"]] and tuple(reversed(p)) not in [tuple(f) for f in spec["forbid"]]]
             for x, y in pairs:
